@@ -16,7 +16,7 @@ Total(S) == LET F(k) == Wt(S, k) IN SumSet(F, Keys(S))
 Init == /\ st = [Empty(TRUE, "Hypergraph") EXCEPT !.nodes = Node, !.nmd = [n \in Node |-> NoMeta]]
         /\ sz \in (IF Mixed THEN {0} ELSE Sizes)
         /\ pv = [P |-> <<>>, M |-> 1]
-AddOcc == \E k \in AllKeys :
+AddOcc == pv.P = <<>> /\ \E k \in AllKeys :
             /\ IF Mixed THEN Total(st) < MaxTotal
                ELSE KSize(k) = sz /\ ExactRegime(Nocc(st, sz) + 1, sz)
             /\ st' = [st EXCEPT !.E = Upd(st.E, k, [w |-> (IF k \in Keys(st) THEN st.E[k].w ELSE 0) + 1, md |-> NoMeta])]
